@@ -45,13 +45,13 @@ fn prog_for(prop: &str, tier: u8, seed: u64, idx: usize) -> Prog {
 pub fn total(prop: &str, tier: u8) -> usize {
     match (prop, tier) {
         ("C14", 0) => 2500,
-        ("C14", _) => 80_000,
+        ("C14", _) => 30_000,
         ("C15", 0) => 500,
-        ("C15", _) => 15_000,
+        ("C15", _) => 4_000,
         ("C19", 0) => 300,
-        ("C19", _) => 8_000,
+        ("C19", _) => 2_500,
         ("C13", 0) => 72,
-        ("C13", _) => 900,
+        ("C13", _) => 360,
         _ => 0,
     }
 }
